@@ -316,9 +316,9 @@ EXPORT char *_strtok_s_chk(char *restrict dest, rsize_t *restrict dmaxp,
     while (*dest != '\0') {
 
         if (unlikely(dlen == 0)) {
+            /* dest points behind the dmax elements here: nothing to store */
             *ptr = NULL;
             *dmaxp = 0;
-            *dest = '\0';
             invoke_safe_str_constraint_handler("strtok_s: dest is unterminated",
                                                dest, ESUNTERM);
             errno = ESUNTERM;
